@@ -74,6 +74,7 @@ func (u *decodeUnit) cycle(cycle int, app risc.Application) {
 			u.log = fmt.Sprintf("%v at %d", runner.InstructionType(), pc/4)
 			jump = true
 		}
+		u.ctx.VerifEvent(risc.VerifKindDecode, u.ctx.SequenceID(pc), pc, 0)
 		u.outBus.Add(risc.InstructionRunnerPc{
 			Runner:     runner,
 			Pc:         pc,
